@@ -55,7 +55,7 @@ def view_stage(work, res, tier, prefixes, replay=None):
                 (models[i], r["states"], r["transitions"], r["wall_s"], n))
             out = []
             for v in variants[i]:
-                tr = replay_edges(work, binp, edges, v, per, sample=(0.34 if tier == "quick" and v > 0 else 1.0))
+                tr = replay_edges(work, binp, edges, v, per, sample=(1.0 if v == 0 else (0.34 if tier == "quick" else 0.2)))
                 tr["judged"] = judge_chunked(work, tr["trace"], per)
                 log("judged %d lines of %s (variant %s)" % (tr["judged"]["lines"], gens[i], tr["variant"]))
                 out.append(tr)
